@@ -173,9 +173,16 @@ impl Sut {
     pub fn exec(&mut self, sql: &str) -> Out {
         let db = &mut self.db;
         match catch(move || {
-            let stmt = match vibesql_parser::Parser::parse_sql(sql) {
-                Ok(s) => s,
-                Err(pe) => return Out::Err(format!("parse: {}", pe)),
+            // the parser of the pinned tree has no ANALYZE statement (only the AST and the executor exist):
+            // `ANALYZE <table>` is handed to the executor directly, as an embedding application would
+            let stmt = match sql.trim().strip_prefix("ANALYZE ") {
+                Some(t) if !t.trim().is_empty() && t.trim().chars().all(|c| c.is_ascii_alphanumeric() || c == '_') => {
+                    vibesql_ast::Statement::Analyze(vibesql_ast::AnalyzeStmt { table_name: Some(t.trim().to_uppercase()), columns: None })
+                }
+                _ => match vibesql_parser::Parser::parse_sql(sql) {
+                    Ok(s) => s,
+                    Err(pe) => return Out::Err(format!("parse: {}", pe)),
+                },
             };
             match dispatch(db, stmt) {
                 Ok(o) => o,
